@@ -1,7 +1,7 @@
 (* C08 — value hashing is deterministic, discriminating and context-free. *)
 From Coq Require Import Sorting.Permutation.
 From Pydra Require Import Base.Prelude Base.PySort Model.Hash Spec.Hash Proofs.HashSort Proofs.HashCtx
-     Proofs.HashInj Proofs.HashOrder Proofs.HashDom Proofs.HashRefuted Proofs.HashExamples.
+     Proofs.HashInj Proofs.HashOrder Proofs.HashDom Proofs.HashRefuted Proofs.HashExamples Proofs.HashOrderDeep.
 
 (* The property at full strength, for every hash function H standing for blake2b:
    (1) context-free: hashing v after anything else under one shared Cache gives the digest of v alone;
@@ -90,3 +90,22 @@ Theorem C08_examples :
    reorder v1 v2 /\ sortable v1).
 Proof. exact (conj ex_inj_dom (conj ex_sortable (conj ex_hashable_acyclic reorder_example))). Qed.
 Print Assumptions C08_examples.
+
+(* order invariance with sets re-ordered at EVERY nesting level simultaneously ([operm]: the elements of a
+   re-ordered set may themselves be re-ordered values; lists/tuples/dict values/attribute values recursively).
+   `sorted` compares the elements themselves (sets) / the keys themselves (dicts) with Python's `<`; the conditions
+   carried by [operm] at each set node are therefore about its elements: pairwise distinct and in a class `<` orders
+   totally ([keys_ok]), with `<` answering alike on the elements as the other session sees them ([compat]).
+   Two incomparable frozensets fail [keys_ok]: F07 / F08d stay outside. *)
+Theorem C08_order_invariant_deep : forall H f v1 v2, operm v1 v2 -> dig H f v1 tt = dig H f v2 tt.
+Proof. exact dig_operm. Qed.
+Print Assumptions C08_order_invariant_deep.
+
+(* non-vacuity: {fs{1,2}, fs{1,2,3}} (a chain under proper subset) vs {fs{3,1,2}, fs{2,1}}: both levels re-ordered *)
+Theorem C08_order_invariant_deep_example :
+  operm nx_v1 nx_v2 /\ forall H, digest H nx_v1 = digest H nx_v2.
+Proof.
+  split; [exact nested_operm|]. intros H. unfold digest.
+  change (vdepth nx_v2) with (vdepth nx_v1). now rewrite (dig_operm H _ _ _ nested_operm).
+Qed.
+Print Assumptions C08_order_invariant_deep_example.
